@@ -282,7 +282,7 @@ class HistoryFamily:
                     rows = rows[:-1]
                 sel_all = all_selected(dict(sel=q['sel'], binders=q['binders'])) or q.get('infer')
                 # (a nested constructor argument is modelled as one more conjunct: the ORDER of the rows is not modelled)
-                exact = exact and not any(t[0] == 'nest' for t in q['sel'])
+                exact = exact and not any(t[0] == 'nest' for t in q['sel']) and q.get('head_style') != 'mixed'
                 if op[0] == 'full' or (op[0] == 'raise' and not aborted):
                     if sel_all:
                         if (rows != ans) if exact else (sorted(rows) != sorted(ans)):
@@ -542,7 +542,7 @@ def infer_history(H, rng, tier):
     """a rule evaluated partly (take k / aborted) and then fully: one instance per satisfying assignment every time"""
     import p_query
     base = p_query.C11().gen(rng, 0, tier)
-    q = dict(sel=base['sel'], cond=base['cond'], binders=base['binders'], form='infer', infer=True)
+    q = dict(sel=base['sel'], cond=base['cond'], binders=base['binders'], form='infer', infer=True, head_style=base.get('head_style', 'kw'))
     ops = []
     for _ in range(rng.randint(1, 3)):
         ops.append(['take', 0, rng.randint(0, 2)] if rng.random() < 0.7 else ['full', 0])
